@@ -9,6 +9,7 @@ import (
 	"fmt"
 	"os"
 	"path/filepath"
+	"runtime/debug"
 	"sort"
 	"strings"
 
@@ -27,6 +28,7 @@ type Case struct {
 	Nontrivial bool            `json:"nontrivial"`
 	Tags       []string        `json:"tags,omitempty"`
 	Known      string          `json:"known,omitempty"` // signature of a known finding this case reproduces
+	Panic      string          `json:"panic,omitempty"` // the implementation panicked on this input (always a failing input)
 	coq        string
 }
 
@@ -61,6 +63,20 @@ func (c *Case) setObs(v interface{}) {
 		panic(err)
 	}
 	c.Obs = b
+}
+
+// runRecovered runs one case; a panic of the implementation is recorded on the case.
+func runRecovered(f *Family, c *Case) (err error) {
+	defer func() {
+		if r := recover(); r != nil {
+			c.Panic = fmt.Sprintf("%v\n%s", r, debug.Stack())
+			if len(c.Panic) > 1500 {
+				c.Panic = c.Panic[:1500]
+			}
+			c.coq = ""
+		}
+	}()
+	return f.Run(c)
 }
 
 func main() {
@@ -104,7 +120,7 @@ func main() {
 	for i, c := range cases {
 		c.ID = i
 		c.Obs = nil
-		if err := f.Run(c); err != nil {
+		if err := runRecovered(f, c); err != nil {
 			fmt.Fprintf(os.Stderr, "case %d (%s): %v\n", i, c.Kind, err)
 			os.Exit(3)
 		}
@@ -136,6 +152,10 @@ func main() {
 		idx, size = 0, 0
 	}
 	for _, c := range cases {
+		if c.Panic != "" {
+			c.Shard, c.Idx = -1, -1
+			continue
+		}
 		if size > *maxShard {
 			flush()
 		}
